@@ -105,7 +105,8 @@ func buildVC(w *World, c *Contract) (vc *FuncVC) {
 		// that each recorded region still fails (canary)
 		var regions []string
 		for _, f := range w.Findings.Findings {
-			if f.Obligation != c.Func+".ensures."+cl.Label || !strings.HasSuffix(c.Pkg, f.Pkg) {
+			full := c.Func + ".ensures." + cl.Label
+			if !(f.Obligation == full || strings.HasPrefix(full, f.Obligation+".")) || !strings.HasSuffix(c.Pkg, f.Pkg) {
 				continue
 			}
 			kp := w.Preds[c.Pkg+"."+f.Pred]
